@@ -13,7 +13,7 @@
    implementation output): merge_leaves below depth 1, merge_children / merge_leaves onto an existing destination,
    replace from an unrelated branch of the same tree, delete_children combined with overriding/merge flags, the
    from==to / nested variants, partial from-paths and multi-character separators in the string layer. *)
-From BT Require Import Base.Prelude Base.Str Base.StrSep Base.Rose Algo.Modify Spec.PC08 Algo.ModifyProofs.
+From BT Require Import Base.Prelude Base.Str Base.StrSep Base.Rose Algo.Modify Spec.PC08 Corr.ModifyCorr Algo.ModifyProofs.
 
 (* One call with several pairs = the same single-pair calls in sequence (stopping at the first exception),
    for every pair list that passes the argument checks, all five functions, all flags.
@@ -271,6 +271,82 @@ Theorem C08_sepfree_is_sgood : forall c w, sepfree c w <-> sgood [c] w.
 Proof. intros c w. unfold sepfree, sgood. rewrite sfree_one. tauto. Qed.
 Print Assumptions C08_sepfree_is_sgood.
 
+(* ---- prop_C08 (model input) (model output) = true, per family -------------------------------------------- *)
+
+(* The umbrella statement "for all inputs prop_C08 i (obs_of i (run i)) = true" is NOT proved in general (it needs the
+   string layer and every row of the decision table).  Proved families:
+   (a) every call of C08_shift_whole_call_multi (plain shift, full paths, one pair, sep = tree.sep of any length):
+       the predicate check_C08 evaluates on the implementation's output accepts the model's output (accepted call);
+   (b) every call with merge_children and merge_leaves both set (all trees, paths, separators, other flags; the four
+       non-replace functions): refused with ValueError, nothing changed, and prop_C08 accepts that (refused call). *)
+Theorem C08_model_satisfies_prop_shift_partial : forall (a : N) (sp' : str) sk t p x comps PX,
+  let sep := a :: sp' in
+  let fl := MF sk false false false false true in
+  let Q := tname t :: comps in
+  wf_t t -> p <> [] -> tget t p = Some x -> tpath t p = Some PX ->
+  Forall (sgood (a :: sp')) PX -> Forall (sgood (a :: sp')) Q ->
+  pfx PX Q = false -> has (rows t) (Q ++ [tname x]) = false ->
+  let i := MI OpShift fl sep t sep (T None [] [] []) sep [join sep PX] [Some (join sep (Q ++ [tname x]))] in
+  trees_ok i = true ->
+  prop_C08 i (obs_of i (run i)) None = true.
+Proof. exact C08_model_satisfies_prop_shift_stmt. Qed.
+Print Assumptions C08_model_satisfies_prop_shift_partial.
+
+Theorem C08_model_satisfies_prop_both_merges : forall i,
+  is_replace (mi_op i) = false -> f_mc (mi_fl i) = true -> f_ml (mi_fl i) = true ->
+  prop_C08 i (obs_of i (run i)) None = true.
+Proof. exact C08_model_satisfies_prop_both_merges_stmt. Qed.
+Print Assumptions C08_model_satisfies_prop_both_merges.
+
+(* merge_children onto a destination node that EXISTS (no overriding): the source's children are appended, in order
+   and as the same objects, after the destination's own children (ins_all = insert_last per child under PD); the
+   source node is detached; the destination node, its other children and every other row keep path, tag,
+   attributes and order (subseq); = Spec.edit_cs.  The destination may be an ancestor of the source or the root;
+   it must not lie inside the source subtree. *)
+Theorem C08_merge_children_existing : forall sep tsep fl t p d x PX PD,
+  f_mc fl = true -> f_over fl = false -> f_dc fl = false -> wf_t t ->
+  p <> [] -> tget t p = Some x -> tpath t p = Some PX -> tpath t d = Some PD ->
+  pfx PX PD = false -> last PD [] = tname x ->
+  (forall k, In k (tkids x) -> has (rows t) (PD ++ [tname k]) = false) ->
+  exists t2 rest,
+    cs_core (cfg_same false sep tsep fl) [t] (0 :: p) (TNode (0 :: d)) = (t2 :: rest, None)
+    /\ rows t2 = minus (ins_all PD (tkids x) (minus_strict (rows t) PX)) PX
+    /\ edit_cs false true fl (rows t) (rows t) PX (Some PD) = PNext (rows t2) (rows t2)
+    /\ subseq (minus (rows t) PX) (rows t2).
+Proof. exact C08_merge_children_existing_stmt. Qed.
+Print Assumptions C08_merge_children_existing.
+
+(* Copies are new objects with the same names and attributes: every row of a copied subtree has tag None, and its
+   (path, attributes) rows equal those of the original re-rooted at the same place.  Together with
+   C08_copy_keeps_source / C08_delete_children_copy (subseq (rows t) (rows t2): the source rows, tags included, are all
+   still there) and C08_tree_to_tree_source_untouched this is "the source is untouched and the copy is fresh".
+   (Not connected to Heap/Effects: that development speaks about heap ids, this one about tags.) *)
+Theorem C08_copy_fresh : forall x P,
+  (forall r, In r (rows_from P (retag x)) -> rtag r = None)
+  /\ map (fun r => (rpath r, rattrs r)) (rows_from P (retag x)) = map (fun r => (rpath r, rattrs r)) (rows_from P x).
+Proof. intros x P. split; [apply rows_retag_fresh|apply rows_retag_same]. Qed.
+Print Assumptions C08_copy_fresh.
+
+(* replace_position, shift_and_replace_nodes, source F from an UNRELATED branch: F is neither below D's parent nor an
+   ancestor of it (so in particular not a sibling of D, not inside D, D not inside F).  Result: D and F are removed
+   from where they were (rows U = table minus D's block minus F's block) and F is put between L and R, i.e. in D's
+   slot: rows t2 = A ++ rows L ++ rows F ++ rows R ++ B where rows U = A ++ rows L ++ rows R ++ B.
+   (adj' p par is where D's parent is once F has been removed.) *)
+Theorem C08_replace_position_unrelated : forall c t par p L D R x PQ PX,
+  plain_replace c -> wf_t t -> tpath t par = Some PQ -> par <> [] -> p <> [] ->
+  fkids par (tkids t) = Some (L ++ D :: R) -> tget t p = Some x -> tpath t p = Some PX ->
+  is_prefix par p = false -> is_prefix p par = false ->
+  (forall k, In k (L ++ R) -> tname k <> tname x) ->
+  let d := par ++ [length L] in
+  let U := t_remove p (t_remove d t) in
+  let t2 := t_setk (adj' p par) (L ++ x :: R) U in
+  (exists rest, rp_core c [t] (0 :: p) (0 :: d) = (t2 :: rest, None))
+  /\ rows U = minus (minus (rows t) (PQ ++ [tname D])) PX
+  /\ exists A B, rows U = A ++ frows PQ (L ++ R) ++ B
+                 /\ rows t2 = A ++ frows PQ L ++ rows_from PQ x ++ frows PQ R ++ B.
+Proof. exact C08_replace_unrelated_stmt. Qed.
+Print Assumptions C08_replace_position_unrelated.
+
 (* ---- the hypotheses are satisfiable by non-trivial inputs ------------------------------------ *)
 
 Ltac conj := repeat match goal with |- _ /\ _ => split end.
@@ -436,3 +512,41 @@ Example C08_empty_tree_sep_refused :
   snd (run (MI OpShift ex_fl [47%N] ex_tree [] (T None [] [] []) [] [[114;47;97]%N] [Some [114;47;100;47;97]%N]))
   = Some ValueError.
 Proof. vm_compute. reflexivity. Qed.
+
+(* merge_children onto an existing node: r(x(c1..c5), y(o)) shift r/x to r/y/x ... here onto the existing r/y2/x *)
+Definition ex_tree_mce : tree :=
+  T (Some 0) [114%N] [] [ T (Some 1) [120%N] [] [T (Some 2) [49%N] [] []; T (Some 3) [50%N] [] []];
+                         T (Some 4) [121%N] [] [T (Some 5) [120%N] [] [T (Some 6) [111%N] [] []]] ].
+Example C08_merge_children_existing_run :
+  fst (run (MI OpShift (MF false false true false false true) [47%N] ex_tree_mce [47%N] (T None [] [] []) [47%N]
+               [[114;47;120]%N] [Some [114;47;121;47;120]%N]))
+  = [T (Some 0) [114%N] [] [T (Some 4) [121%N] [] [T (Some 5) [120%N] []
+                              [T (Some 6) [111%N] [] []; T (Some 2) [49%N] [] []; T (Some 3) [50%N] [] []]]];
+     T (Some 1) [120%N] [] []].
+Proof. vm_compute. reflexivity. Qed.
+
+(* prop_C08 on the model's output, concrete instance of family (a), and a refused call of family (b) *)
+Example C08_model_satisfies_prop_shift_nonvacuous :
+  let i := MI OpShift ex_fl [47%N] ex_tree [47%N] (T None [] [] []) [47%N]
+              [[114;47;97;47;98]%N] [Some [114;47;100;47;110;47;98]%N] in
+  trees_ok i = true /\ prop_C08 i (obs_of i (run i)) None = true /\ snd (run i) = None.
+Proof. vm_compute. conj; reflexivity. Qed.
+Example C08_model_satisfies_prop_both_merges_nonvacuous :
+  let i := MI OpCopy (MF false true true true false false) [47%N] ex_tree [47%N] (T None [] [] []) [47%N]
+              [[98]%N] [Some [114;47;100;47;98]%N] in
+  trees_ok i = true /\ snd (run i) = Some ValueError /\ prop_C08 i (obs_of i (run i)) None = true.
+Proof. vm_compute. conj; reflexivity. Qed.
+
+(* replace from an unrelated branch: r(a(b(k),c), d(e,f,g)): r/a/b replaces r/d/f: children of d become e, b, g *)
+Definition ex_tree_ru : tree :=
+  T (Some 0) [114%N] [] [ T (Some 1) [97%N] [] [T (Some 2) [98%N] [] [T (Some 3) [107%N] [] []]; T (Some 4) [99%N] [] []];
+                         T (Some 5) [100%N] [] [T (Some 6) [101%N] [] []; T (Some 7) [102%N] [] []; T (Some 8) [103%N] [] []] ].
+Example C08_replace_position_unrelated_run :
+  fst (run (MI OpShiftReplace ex_fl [47%N] ex_tree_ru [47%N] (T None [] [] []) [47%N]
+               [[114;47;97;47;98]%N] [Some [114;47;100;47;102]%N]))
+  = [T (Some 0) [114%N] [] [ T (Some 1) [97%N] [] [T (Some 4) [99%N] [] []];
+                           T (Some 5) [100%N] [] [T (Some 6) [101%N] [] []; T (Some 2) [98%N] [] [T (Some 3) [107%N] [] []];
+                                                  T (Some 8) [103%N] [] []] ];
+     T (Some 7) [102%N] [] []]
+  /\ is_prefix [1] [0; 0] = false /\ is_prefix [0; 0] [1] = false.
+Proof. vm_compute. conj; reflexivity. Qed.
